@@ -503,8 +503,8 @@ pub fn run(ctx: &Ctx) -> i32 {
         ctx.note("valgrind not found: memcheck pass skipped");
     }
     // ---- (4) thorough: miri on the stand-alone replica of the small sweep
-    let mut miri_status = "skipped (quick tier)".to_string();
-    if !ctx.quick() {
+    let mut miri_status = "not run".to_string();
+    {
         let script = verif_root().join("miri").join("run.sh");
         if script.exists() {
             let out = run_cmd(script.to_str().unwrap(), &[], Duration::from_secs(1800), &[]);
@@ -535,7 +535,7 @@ pub fn run(ctx: &Ctx) -> i32 {
     let coverage = json!({
         "evaluations": evals,
         "distinct_nontrivial": distinct,
-        "rule": "every value of u8/u16/i16 (and of u32/i32 in the thorough tier; quick: all values with <=2 non-zero bytes and 1-2 bit patterns), a 2e5 pattern alphabet of u64, all strings of <=4 pieces over {empty,a,é,U+10348,NUL} plus long ones, every Vec<u8|u16|u32> of length 0..5 (6) over a 5-value boundary alphabet plus lengths 1000 and 1e6, each also rebuilt with spare capacity (larger allocation; re-filled after clear()); oracle = independent native-endian concatenation; vectors run in sub-processes (abort = observation), the small sweep is repeated under valgrind memcheck and (thorough) miri; distinct = distinct values",
+        "rule": "every value of u8/u16/i16 (and of u32/i32 in the thorough tier; quick: all values with <=2 non-zero bytes and 1-2 bit patterns), a 2e5 pattern alphabet of u64, all strings of <=4 pieces over {empty,a,é,U+10348,NUL} plus long ones, every Vec<u8|u16|u32> of length 0..5 (6) over a 5-value boundary alphabet plus lengths 1000 and 1e6, each also rebuilt with spare capacity (larger allocation; re-filled after clear()); oracle = independent native-endian concatenation; vectors run in sub-processes (abort = observation), the small sweep is repeated under valgrind memcheck and under miri (which also checks allocation layouts on free); distinct = distinct values",
         "samples": [{"u16": "0xff00 -> [00, ff]"}, {"Vec<u16>": "[0x00ff, 0xff00, 0xffff]"}, {"Vec<u32>": "[]"}, {"String": "aé\u{10348}"}, {"sha_keys": "IndexMap<Vec<u32>,f64> in all 24 insertion orders"}],
         "exhaustive": false,
         "parts": parts,
